@@ -840,6 +840,12 @@ class VExec(Exec):
                 if I.is_generator(fi):
                     fr.locals['__yield__'] = []
                     fr.locals['__yield_sym__'] = None
+                    if con.options.get('symbolic_yield'):
+                        # the yielded values as a symbolic sequence that loop contracts can talk about (`__yielded__`)
+                        from .smt import SeqVal as _SV
+                        ys_ref = self.alloc(HSymList(z3.Empty(_SV)))
+                        fr.locals['__yielded__'] = ys_ref
+                        fr.locals['__on_yield__'] = lambda v, r=ys_ref: I.cm_HSymList_append(r, v)
                 if fi.kind == 'contextmanager':
                     # the with-body runs at the yield: it returns normally or raises (every listed outcome is explored)
                     outs = self.ghost.get('__body_outcomes__', ['AnyException'])
@@ -856,9 +862,10 @@ class VExec(Exec):
                 outcome = ('return', NONE)
                 if I.is_generator(fi):
                     ys = fr.locals['__yield_sym__']
-                    outcome = ('return', ys if ys is not None else self.alloc(HList(fr.locals['__yield__'])))
+                    outcome = ('return', fr.locals['__yielded__'] if '__yielded__' in fr.locals else
+                               ys if ys is not None else self.alloc(HList(fr.locals['__yield__'])))
             except ReturnSig as r:
-                outcome = ('return', r.value)
+                outcome = ('return', fr.locals['__yielded__'] if '__yielded__' in fr.locals else r.value)
             except PyRaise as pr:
                 outcome = ('raise', pr.exc)
             except Vanish as v:
